@@ -9,6 +9,7 @@ import (
 	"bufio"
 	"fmt"
 	"io"
+	"os"
 	"os/exec"
 	"strconv"
 	"strings"
@@ -79,6 +80,12 @@ func (s *Solver) start() error {
 	s.declUF = make(map[string]bool)
 	s.nDefs = 0
 	s.dead = false
+	if p := os.Getenv("GOSYM_SOLVERLOG"); p != "" && s.log == nil {
+		f, err := os.Create(fmt.Sprintf("%s.%d", p, os.Getpid()))
+		if err == nil {
+			s.log = f
+		}
+	}
 	if s.kind == "cvc5" {
 		s.send("(set-logic ALL)\n")
 	} else {
@@ -129,8 +136,16 @@ func fpLit(bitsV uint64) string {
 	return fmt.Sprintf("(fp #b%b #b%011b #b%052b)", sign, exp, man)
 }
 
+// SMT names carry the sort: the same harness input name can have different
+// widths on different paths (one solver process serves them all).
 func smtVarName(t *Term) string {
-	return "|" + t.name + "|"
+	switch t.sort.K {
+	case KBool:
+		return "|" + t.name + "~b|"
+	case KFP:
+		return "|" + t.name + "~f|"
+	}
+	return "|" + t.name + "~" + strconv.Itoa(t.sort.Bits) + "|"
 }
 
 // ref returns the SMT-LIB reference for t, emitting definitions as needed.
@@ -383,6 +398,9 @@ func (s *Solver) Check(conj []*Term, wantModel bool) (Result, Model) {
 		s.send("(pop 1)\n")
 	}
 	dt := time.Since(t0).Seconds()
+	if s.log != nil {
+		fmt.Fprintf(s.log, "; RESULT %v in %.3fs\n", res, dt)
+	}
 	s.stats.Seconds += dt
 	if dt > s.stats.MaxQueryS {
 		s.stats.MaxQueryS = dt
@@ -480,7 +498,7 @@ func parseModel(txt string, vars []int32) (Model, error) {
 			continue
 		}
 		v, _ := termByID.Load(id)
-		byName[v.(*Term).name] = v.(*Term)
+		byName[strings.Trim(smtVarName(v.(*Term)), "|")] = v.(*Term)
 	}
 	toks := tokenize(txt)
 	// grammar: ( ( name value ) ... )
